@@ -35,6 +35,8 @@ pub enum Op {
     Onchain(u64),
     Advance(u64),
     Restart,
+    /// the most recent invoice / keysend presented again, unchanged
+    Retry,
 }
 
 #[derive(Clone, Default, Debug, Serialize)]
@@ -43,6 +45,8 @@ pub struct Ghost {
     pub pay: Vec<(u64, u64)>,
     pub fee: Vec<(u64, u64)>,
     pub next_hash: u8,
+    /// the most recent payment request: (invoice?, hash index, msat, creation time, approved?)
+    pub last: Option<(bool, u8, u64, u64, bool)>,
 }
 
 pub struct VState {
@@ -136,12 +140,16 @@ impl Model for VelModel {
             Op::Advance(WINDOW + BUCKET),
             Op::Restart,
         ]
+        .into_iter()
+        .chain(if s.ghost.last.is_some() { Some(Op::Retry) } else { None })
+        .collect()
     }
 
     fn key(&self, s: &VState) -> String {
         let now = s.w().now();
         let rel = |l: &Vec<(u64, u64)>| l.iter().filter(|(t, _)| now - *t <= WINDOW).map(|(t, a)| (now - *t, *a)).collect::<Vec<_>>();
-        format!("{}|{}|{:?}|{:?}|{}", fp(&s.w().snapshot()), now % BUCKET, rel(&s.ghost.pay), rel(&s.ghost.fee), fp(&serde_json::json!(s.w().raw_velocity())))
+        let last = s.ghost.last.map(|(i, _, a, t, ok)| (i, a, now - t, ok));
+        format!("{}|{}|{:?}|{:?}|{}|{:?}", fp(&s.w().snapshot()), now % BUCKET, rel(&s.ghost.pay), rel(&s.ghost.fee), fp(&serde_json::json!(s.w().raw_velocity())), last)
     }
 
     fn apply(&self, s: &mut VState, op: &Op, check: bool, vios: &mut Vec<Vio>) {
@@ -156,6 +164,10 @@ impl Model for VelModel {
         let kind = match op {
             Op::Keysend(..) => "add_keysend",
             Op::Invoice(..) => "add_invoice",
+            Op::Retry => match s.ghost.last {
+                Some((true, ..)) => "add_invoice",
+                _ => "add_keysend",
+            },
             Op::Onchain(..) => "check_onchain_tx",
             Op::Advance(..) => "advance",
             Op::Restart => "restart",
@@ -175,21 +187,32 @@ impl Model for VelModel {
             Op::Advance(dt) => {
                 s.w().clock.set(Duration::from_secs(now + dt));
             }
-            Op::Keysend(h, amt) | Op::Invoice(h, amt) => {
+            Op::Keysend(..) | Op::Invoice(..) | Op::Retry => {
                 let node = s.w().node.clone();
-                let (h, amt) = (*h, *amt);
-                let is_inv = matches!(op, Op::Invoice(..));
+                // (invoice?, hash, amount, creation time, approved before?)
+                let (is_inv, h, amt, created, was_approved) = match op {
+                    Op::Keysend(h, amt) => (false, *h, *amt, now, false),
+                    Op::Invoice(h, amt) => (true, *h, *amt, now, false),
+                    _ => s.ghost.last.unwrap(),
+                };
+                let retry = matches!(op, Op::Retry);
                 let r = call(move || {
                     if is_inv {
-                        node.add_invoice(make_invoice(h, amt, now)).map_err(|e| status_kind(&e))
+                        node.add_invoice(make_invoice(h, amt, created)).map_err(|e| status_kind(&e))
                     } else {
                         let payee = PublicKey::from_secret_key(&secp(), &sk(201));
                         node.add_keysend(payee, pay_hash(h), amt).map_err(|e| status_kind(&e))
                     }
                 });
                 tag = r.tag();
-                s.ghost.next_hash = s.ghost.next_hash.wrapping_add(1);
+                if !retry {
+                    s.ghost.next_hash = s.ghost.next_hash.wrapping_add(1);
+                }
+                let approved_now = matches!(r, Outcome::Ok(true));
+                s.ghost.last = Some((is_inv, h, amt, created, was_approved || approved_now));
                 match r {
+                    // the same approved payment presented again is not a second approval
+                    Outcome::Ok(true) if retry && was_approved => {}
                     Outcome::Ok(true) => {
                         let sum = window_sum(&s.ghost.pay, now) + amt as u128;
                         if sum > PAY_LIMIT as u128 {
